@@ -53,7 +53,9 @@ PROPS = {"C04": dict(
               "Zrnt.Proofs.C04.decode_some_imp_canonical", "Zrnt.Proofs.C04.decode_injective",
               "Zrnt.Proofs.C04.decode_list_within_limit", "Zrnt.Proofs.C04.encode_injective",
               "Zrnt.Proofs.C04.schema_types_legal", "Zrnt.Proofs.C04.schema_round_trip", "Zrnt.Proofs.C04.limits_agree_for_all_configs",
-              "Zrnt.Proofs.C04.ssz_methods_agree", "Zrnt.Proofs.C04.ssz_types_complete"],
+              "Zrnt.Proofs.C04.ssz_methods_agree", "Zrnt.Proofs.C04.ssz_types_complete",
+              "Zrnt.Proofs.C04.no_opaque_bodies", "Zrnt.Proofs.C04.checkType_sound_struct",
+              "Zrnt.Proofs.C04.checkType_sound_list"],
     modes=[dict(name="ssz")],
     level="proof",
     trusted_base=TB_COMMON + TB_SSZ,
